@@ -145,9 +145,9 @@ class Ctx:
 
 # -------------------------------------------------------------------- building
 
-def run_translator(ctx):
+def run_translator(ctx, modules=None):
     os.makedirs(BUILD, exist_ok=True)
-    rc, out, err = sh([PY, os.path.join(VERIF, 'translator', 'py2coq.py')], timeout=300)
+    rc, out, err = sh([PY, os.path.join(VERIF, 'translator', 'py2coq.py')] + list(modules or []), timeout=300)
     try:
         rep = json.loads(out)
     except Exception:
@@ -184,12 +184,12 @@ def _enclosing_lemma(path, line):
     return name
 
 
-def coq_make(ctx, targets, timeout=3000):
+def coq_make(ctx, targets, timeout=3000, modules=None):
     """translator -> _CoqProject -> make <targets>.  Returns True when all
     targets built.  Failures are recorded in ctx.broken with file, line and
     the enclosing lemma name."""
     with Lock('build'):
-        rep = run_translator(ctx)
+        rep = run_translator(ctx, modules)
         for e in rep['errors']:
             ctx.broken.append({'kind': 'translator', 'kernel': e.get('kernel'),
                                'module': e.get('out'), 'error': e.get('error')})
